@@ -196,6 +196,44 @@ def check_manager(ctx):
                       'fail() release the registry entry before any call other than _MODIFYING.get; __exit__ calls exactly one '
                       'of success / fail and returns False', 8)
     m = ctx.repo.mod('fst_core')
+
+    def store_stmt(x):
+        return isinstance(x, (ast.Assign, ast.Delete)) and any(isinstance(t, ast.Subscript) and norm(t.value) == '_MODIFYING' for t in x.targets)
+
+    def release_analysis(fi, releasers):
+        """(stores, nodes that may raise before a release, exit reachable without a release) for one function."""
+        cfg = CFG(fi.node)
+
+        def is_store(n):
+            if n.kind == 'stmt' and store_stmt(n.ast):
+                return True
+            return any(isinstance(x, ast.Call) and call_name(x) in releasers for x in subnodes(cfg, n))
+
+        def may_raise(n):
+            if n.kind == 'stmt' and isinstance(n.ast, ast.Raise):
+                return True
+            for x in subnodes(cfg, n):
+                if isinstance(x, ast.Call) and not (isinstance(x.func, ast.Attribute) and norm(x.func.value) == '_MODIFYING' and x.func.attr == 'get') \
+                        and call_name(x) not in releasers:
+                    return True
+            return False
+        stores = [n for n in cfg.nodes if is_store(n)]
+        rel_ids = {s_.id for s_ in stores}
+        reach = cfg.reachable(cfg.entry, lambda n, lab, s2: lab != 'exc' and n.id not in rel_ids)
+        bad = [cfg.nodes[i] for i in reach if i not in rel_ids and may_raise(cfg.nodes[i])]
+        return cfg, stores, bad, cfg.exit in reach
+
+    # a module-level helper that releases the entry on every path before anything that can raise is a release (wrapper summary)
+    releasers = set()
+    for q, fis in m.funcs.items():
+        for fi in fis:
+            if '.' in q or isinstance(fi.node, ast.Lambda) or not any(store_stmt(x) for x in walk_no_nested(fi.node)):
+                continue
+            _, stores, bad, leak = release_analysis(fi, set())
+            if stores and not bad and not leak:
+                releasers.add(fi.name)
+    ctx.extra['registry_release_helpers'] = sorted(releasers)
+
     for q in ('_Modifying.enter', '_Modifying.success', '_Modifying.fail', '_Modifying.__exit__'):
         fis = m.func(q)
         if not fis:
@@ -204,15 +242,16 @@ def check_manager(ctx):
             cfg = CFG(fi.node)
 
             def is_store(n):
-                return any((isinstance(x, (ast.Assign, ast.Delete)) and any(isinstance(t, ast.Subscript) and norm(t.value) == '_MODIFYING'
-                            for t in (x.targets if isinstance(x, (ast.Assign, ast.Delete)) else [])))
-                           for x in ([n.ast] if n.kind == 'stmt' else []))
+                if n.kind == 'stmt' and store_stmt(n.ast):
+                    return True
+                return any(isinstance(x, ast.Call) and call_name(x) in releasers for x in subnodes(cfg, n))
 
             def may_raise(n):
                 if n.kind == 'stmt' and isinstance(n.ast, ast.Raise):
                     return True
                 for x in subnodes(cfg, n):
-                    if isinstance(x, ast.Call) and not (isinstance(x.func, ast.Attribute) and norm(x.func.value) == '_MODIFYING' and x.func.attr == 'get'):
+                    if isinstance(x, ast.Call) and not (isinstance(x.func, ast.Attribute) and norm(x.func.value) == '_MODIFYING' and x.func.attr == 'get') \
+                            and call_name(x) not in releasers:
                         return True
                 return False
             stores = [n for n in cfg.nodes if is_store(n)]
